@@ -8,6 +8,7 @@ use std::collections::BTreeMap;
 pub mod c01;
 pub mod c05;
 pub mod c06;
+pub mod c07;
 pub mod c08;
 pub mod c09;
 pub mod c10;
